@@ -338,7 +338,12 @@ of the interpolant"**: (a) what the code returns for `deriv = 1, deriv_spherical
 length `3M` — all `Σ s'Y`, then all `Σ s ∂θY`, then all `Σ s ∂φY` (`np.hstack` of three 1-D arrays);
 (b) under H2 (first derivative of the splines) and H3 (the rows `∂θY`, `∂φY` are the θ- and φ-derivatives of
 the rows `Y` at the point) these three numbers are the partial derivatives of
-`(r, θ, φ) ↦ Σ_lm spline_lm(r) Y_lm(θ, φ)` at the point. -/
+`(r, θ, φ) ↦ Σ_lm spline_lm(r) Y_lm(θ, φ)` at the point.
+H3 is a hypothesis on the rows the code hands over: on the polar axis (`|tan φ| < 1e-10`) the routine
+`generate_derivative_real_spherical_harmonics` sets the term `|m| cot φ · Y_l|m|` of `∂φY` to zero by
+documented convention, which is not the derivative for `|m| = 1`; there H3 fails for the code's rows and the
+reported `∂φ` is not the derivative of the interpolant (replayed by the oracle, key
+`atomgrid.interpolate:deriv-spherical:z-axis`). -/
 theorem derivs_consistent_spherical (S : ℕ → ℝ → ℕ → ℝ) (Y dYt dYp : ℕ → ℝ → ℝ → ℝ) (L : ℕ) (c : Vec3 ℝ) :
     (∀ (points : List (Vec3 ℝ)),
       interpolateLow S Y dYt dYp L c points 1 true false =
